@@ -51,6 +51,10 @@ def layouts(draw, max_frames=10):
                 mask=draw(st.sampled_from(["none", "islands"])), h=draw(st.sampled_from(["flat", "noise"])),
                 # which look-ahead fractions are asked for in every step, in this order (EF none beyond the step
                 # itself, RK2 one half, RK4 one half twice and a whole; a plug-in any fixed fraction)
+                # every file may count its time in its own unit from its own epoch
+                funits=draw(st.sampled_from([None, None, ["seconds since 1970-01-01 00:00:00", "seconds since 2000-03-01 00:00:00"],
+                                             ["hours since 1990-01-01 00:00:00", "seconds since 1970-01-01 00:00:00",
+                                              "days since 1948-01-01 00:00:00"]])),
                 fracs=draw(st.sampled_from([[0.5, 1.0], [0.5, 1.0], [0.5], [1.0], [0.5, 0.5, 1.0], [0.25], [0.75, 0.75]])))
 
 
@@ -80,7 +84,8 @@ def setup(d, case):
             stor = {"f8": "f8", "f4": "f4", "p1": ("i2", 1e-4), "p2": ("i2", 2.5e-4), "p3": ("i2", 1e-3)}[
                 case["storages"][n % len(case["storages"])]]
         got = roms.write_roms(path, G, [ftimes[i] for i in idx], U[idx], V[idx],
-                              extra={k: v[idx] for k, v in extra.items()}, storage=stor)
+                              extra={k: v[idx] for k, v in extra.items()}, storage=stor,
+                              time_units=(case["funits"][n % len(case["funits"])] if case.get("funits") else None))
         for nm in dec:
             for pos, i in enumerate(idx):
                 dec[nm][i] = np.asarray(got[nm][pos], dtype=float)
@@ -116,6 +121,8 @@ def oracle(case) -> core.CaseResult:
     res.cls("reversed" if case["reverse"] else "forward")
     res.cls("look_ahead_pattern_" + "_".join(str(f) for f in case.get("fracs", (0.5, 1.0))))
     res.cls("multi_file" if len(case["partition"]) > 1 else "single_file")
+    if case.get("funits") and len(case["partition"]) > 1:
+        res.cls("files_count_time_in_their_own_units")
     if case.get("storages") and len(case["partition"]) > 1 and len(set(case["storages"][:len(case["partition"])])) > 1:
         res.cls("files_stored_differently")
     with e2e.workdir() as d:
